@@ -791,6 +791,9 @@ func (p *parser) parseHashLiteral() ast.Expression {
 	for !p.peekTokenIs(token.RBRACE) {
 		p.nextToken()
 		key := p.parseExpression(LOWEST)
+		if key == nil {
+			return nil
+		}
 
 		if !p.expectPeek(token.COLON) {
 			return nil
